@@ -24,6 +24,9 @@ class TState:
         self.error = None
         self.thread = None
         self.stuck = False
+        self.timed = False           # blocked in a wait that has a timeout: the scheduler may let it expire
+        self.expired = False
+        self.fresh = True            # another thread has taken a step since this one's last expiry
 
 
 class Sched:
@@ -38,6 +41,7 @@ class Sched:
         self.spawned_during_run = []
         self.deadlock = ""
         self.uncontrolled_blocking = False
+        self.expiries = 0
 
     # ---- called from controlled threads
     def me(self):
@@ -67,19 +71,25 @@ class Sched:
                 self.cv.wait()
             st.status = "running"
 
-    def block_on(self, obj):
-        """Park until obj is signalled (wake(obj))."""
+    def block_on(self, obj, timed=False):
+        """Park until obj is signalled (wake(obj)).  With timed=True the wait has a timeout: when the wait would expire is a
+        scheduling decision (no real time passes); returns False if the scheduler let it expire, True if it was signalled."""
         st = self.me()
         if st is None:
             raise RuntimeError("blocking primitive used outside a controlled thread")
         with self.cv:
             st.status = "blocked"
             st.waiting_on = obj
+            st.timed = timed
+            st.expired = False
             st.go = False
             self.cv.notify_all()
             while not st.go:
                 self.cv.wait()
             st.status = "running"
+            st.timed = False
+            expired, st.expired = st.expired, False
+            return not expired
 
     def wake(self, obj):
         with self.cv:
@@ -161,6 +171,17 @@ class Sched:
                 if not live:
                     return
                 runnable = [t.name for t in live if t.status == "parked"]
+                # waits with a timeout may expire whenever the scheduler says so -- but a thread that has just had an expiry
+                # gets the next one only after somebody else has made a step (a polling loop must not starve the others), or
+                # when nobody else can run; the total number of expiries per execution is bounded
+                timed = [t.name for t in live if t.status == "blocked" and t.timed]
+                if self.expiries < 40:
+                    runnable += [n for n in timed if self.threads[n].fresh]
+                    if not runnable:
+                        runnable += timed[:1]
+                elif timed and not runnable and not any(t.stuck for t in live):
+                    self.deadlock = "threads keep polling with a timeout and nothing else can run: %s" % timed
+                    return
                 if not runnable and any(t.stuck for t in live):
                     # only uncontrolled waiters are left: give them time, then call it a deadlock
                     if self.cv.wait(timeout=0.25):
@@ -182,6 +203,14 @@ class Sched:
                 self.steps.append((list(runnable), choice, current in runnable and choice != current))
                 current = choice
                 st = self.threads[choice]
+                if st.status == "blocked":           # a timed wait: it expires now
+                    st.expired = True
+                    st.waiting_on = None
+                    st.fresh = False
+                    self.expiries += 1
+                for t in self.threads.values():
+                    if t is not st:
+                        t.fresh = True
                 st.go = True
                 st.status = "running"
                 self.cv.notify_all()
@@ -204,7 +233,8 @@ class CoopLock:
                 return True
             if not blocking:
                 return False
-            self.s.block_on(self)
+            if not self.s.block_on(self, timed=(timeout is not None and timeout >= 0)):
+                return False
 
     def release(self):
         self.held = False
@@ -227,15 +257,17 @@ class CoopQueue:
     def __init__(self, sched, lifo=False):
         self.s, self.items = sched, collections.deque()
 
-    def put(self, x):
+    def put(self, x, block=True, timeout=None):
         self.s.yield_point(("queue.put", 0))
         self.items.append(x)
         self.s.wake(self)
 
-    def get(self):
+    def get(self, block=True, timeout=None):
         self.s.yield_point(("queue.get", 0))
         while not self.items:
-            self.s.block_on(self)
+            if not block or not self.s.block_on(self, timed=timeout is not None):
+                import queue as _q
+                raise _q.Empty()
         return self.items.popleft()
 
     def get_nowait(self):
